@@ -16,6 +16,7 @@ import (
 	"github.com/bbockelm/cedar/client/sharedport"
 	"github.com/bbockelm/cedar/security"
 	"github.com/bbockelm/cedar/stream"
+	"github.com/bbockelm/cedar/verifhook"
 )
 
 // HTCondorClient represents a client connection to an HTCondor daemon
@@ -165,6 +166,16 @@ func (c *HTCondorClient) Connect(ctx context.Context) error {
 		// DefaultDialerFallbackDelay (150 ms) — Go's stdlib default
 		// of 300 ms is slower than ideal for HTCondor's typical
 		// multi-collector deployments.
+		if d := verifhook.Dialer(); d != nil {
+			// verif build only: dial through the simulated network.
+			conn, dialErr := d(ctx, "tcp", addrInfo.ServerAddr)
+			if dialErr != nil {
+				return fmt.Errorf("failed to connect to %s: %w", addrInfo.ServerAddr, dialErr)
+			}
+			c.stream = stream.NewStream(conn)
+			c.stream.SetPeerAddr(c.config.Address)
+			return nil
+		}
 		fbDelay := c.config.FallbackDelay
 		if fbDelay == 0 {
 			fbDelay = DefaultDialerFallbackDelay
